@@ -1,5 +1,7 @@
 import ALock.Lemmas.Sem
 import ALock.Atomic.Sem
+import ALock.Lemmas.AtomTraceSem
+import ALock.Lemmas.Accept
 
 /-!
 # C03 — Semaphore: never over-issues permits and conserves them
@@ -203,3 +205,43 @@ example :
     s.count = 1 ∧ s.ags.map (·.held) = [0, 1] ∧ s.added = 1 := by decide
 
 end ALock.Atomic.Sem
+
+namespace ALock.Sem
+
+/-- **C03 (the count arithmetic of the model is what the recorded atomic operations compute).**
+`stepAtoms s op` is the list of atomic operations on `Semaphore::count` that the differential check
+compares, operation by operation, with what the real crate executed (atomic-operation log).  For
+every state and every operation: replaying that list on the old count is consistent — each
+operation sees the value its predecessor left and a CAS succeeds exactly when the word holds its
+expected value — and ends in the model's new count. -/
+theorem C03_step_atoms (s : Sys) (op : Op) :
+    Atom.consistent s.count (stepAtoms s op) = true ∧
+    Atom.run s.count (stepAtoms s op) = (next s op).count :=
+  step_atoms_word s op
+
+/-- the same for every history (and so for the harness's `settle`, which is a history) -/
+theorem C03_run_atoms (n : Nat) (ops : List Op) :
+    Atom.consistent n (runAtoms (Sys.new n) ops) = true ∧
+    Atom.run n (runAtoms (Sys.new n) ops) = (run (Sys.new n) ops).count :=
+  run_atoms_word (Sys.new n) ops
+
+/-- non-vacuity: a history with a failed and a successful acquisition and a release -/
+example :
+    runAtoms (Sys.new 1) [.tryAcq 1 false, .tryAcq 2 false, .dropGuard 1] =
+      [loadA 1, caswA 1, loadA 0, faddA 1 0] := by decide
+
+end ALock.Sem
+
+namespace ALock.Accept.Sem
+open ALock.Atomic.Sem
+
+/-- **C03 (executions of the real crate with injected preemptions).** An accepted trace is a run of
+the atomic-granularity model, so permits are conserved at its end. -/
+theorem C03_accepted (n p : Nat) (tr : List TEv) (st' : St)
+    (h : acceptAll (init n p) tr = .ok st') :
+    st'.sys.count + issued st'.sys + st'.sys.forgotten = p + st'.sys.added := by
+  obtain ⟨l, e⟩ := accepted_reachable h
+  rw [e]
+  exact C03_interleaved_conservation p l
+
+end ALock.Accept.Sem
